@@ -422,6 +422,30 @@ fn cmd_routes(args: &[&str]) -> String {
                 differing.push(*name);
             }
         }
+        // Partitioning a borrowed, an owned and a re-parsed glob: prefix, displayed postfix and every observable of the postfix.
+        let part_observe = |glob: Glob<'_>| -> String {
+            let (prefix, postfix) = glob.partition();
+            let mut output = hex(&prefix.to_string_lossy());
+            match postfix {
+                None => output.push_str("|-"),
+                Some(postfix) => {
+                    output.push('|');
+                    output.push_str(&hex(&postfix.to_string()));
+                    output.push('|');
+                    output.push_str(&observe(&postfix));
+                },
+            }
+            output
+        };
+        let part_borrowed = part_observe(glob.clone());
+        if part_observe(glob.clone().into_owned()) != part_borrowed {
+            differing.push("partition-owned");
+        }
+        if let Ok(parsed) = Glob::from_str(&expression) {
+            if part_observe(parsed) != part_borrowed {
+                differing.push("partition-from_str");
+            }
+        }
         // Combinator routes: text, compiled, owned, nested.
         let any_observe = |any: &Any<'_>| -> String {
             let mut output = String::new();
@@ -449,7 +473,7 @@ fn cmd_routes(args: &[&str]) -> String {
             _ => differing.push("any-build"),
         }
         if differing.is_empty() {
-            format!("same {}", routes.len() + 3)
+            format!("same {}", routes.len() + 5)
         }
         else {
             format!("differ {}", differing.join(","))
